@@ -3,7 +3,7 @@
 spec = {
   "tasks": [ {"id": int, "module": int, "deps": [node…], "prods": [node…], "after": [task id…],
               "after_style": "func"|"list"|"expr", "marks": ["skip","skipif_true","skipif_false","persist",
-              "try_first","try_last","m1","m2"], "beh": "ok"|"early"|"late"|"omit:k", "style": "default"|"annotated"|
+              "try_first","try_last","markone","marktwo"], "beh": "ok"|"early"|"late"|"omit:k", "style": "default"|"annotated"|
               "kwargs"|"return", "gen": bool } ],
   "versions": {module: int},
   "inputs": {node: int}          # initial contents of non-product files
@@ -90,8 +90,11 @@ def src_node(m: int) -> int:
     return 9000 + m
 
 
-def src_content(m: int, version: int) -> int:
-    return m * 1000 + version + 1
+def module_content(spec, m: int) -> int:
+    """content id of module m = hash of its rendered text (with the SRC constant blanked): equal texts <-> equal ids"""
+    import hashlib
+    txt = render_module(spec, m, src_value="@@")
+    return int(hashlib.sha1(txt.encode()).hexdigest()[:12], 16) + 1
 
 
 def _order_tasks(tasks):
@@ -114,7 +117,7 @@ def _order_tasks(tasks):
     return out
 
 
-def render_module(spec, m: int) -> str:
+def render_module(spec, m: int, src_value=None) -> str:
     tasks = [t for t in spec["tasks"] if t["module"] == m]
     ver = spec["versions"].get(str(m), spec["versions"].get(m, 0))
     L = [
@@ -126,7 +129,7 @@ def render_module(spec, m: int) -> str:
         "from pytask import Product, task, PathNode",
         "import _verif_rt as rt",
         "DATA = Path(__file__).resolve().parent / 'data'",
-        f"SRC = {src_content(m, ver)}",
+        f"SRC = {module_content(spec, m) if src_value is None else src_value}",
         "",
     ]
     local_ids = {t["id"] for t in tasks}
@@ -214,7 +217,7 @@ def write_file(path: Path, text: str, clock: Clock | None):
 
 def materialise(root: Path, spec, clock: Clock | None = None):
     root.mkdir(parents=True, exist_ok=True)
-    (root / "pyproject.toml").write_text('[tool.pytask.ini_options]\nmarkers = {m1 = "marker one", m2 = "marker two"}\n')
+    (root / "pyproject.toml").write_text('[tool.pytask.ini_options]\nmarkers = {markone = "marker one", marktwo = "marker two"}\n')
     (root / "_verif_rt.py").write_text(RT)
     (root / "data").mkdir(exist_ok=True)
     for m in sorted({t["module"] for t in spec["tasks"]}):
@@ -294,6 +297,5 @@ def model_fs_line(spec, contents: dict):
         else:
             sets.append(f"{n}:{c}")
     for m in sorted({t["module"] for t in spec["tasks"]}):
-        ver = spec["versions"].get(str(m), spec["versions"].get(m, 0))
-        sets.append(f"{src_node(m)}:{src_content(m, ver)}")
+        sets.append(f"{src_node(m)}:{module_content(spec, m)}")
     return f"engine.fs set={','.join(sets)} del={','.join(dels)}"
